@@ -26,7 +26,7 @@ def cell(r):
 
 def main():
     seeded = load("cross_*.json")
-    for pat in ("seeded_results.json", "final_own.json", "final_round4.json"):
+    for pat in ("seeded_results.json", "final_own.json", "round7_first_contact.json", "final_round4.json"):
         for name, row in load(pat).items():
             for c, r in row.items():
                 seeded.setdefault(name, {})[c] = r  # later, targeted runs override (final_own.json: last full pass with the final checks)
